@@ -1,6 +1,7 @@
 import Originium.Model.Skiplist
 import Originium.Model.SkipArena
 import Originium.Model.VKey
+import Originium.Model.TypesTie
 /-! # C17 — the skiplist behaves as a sorted map of versioned keys
 
 Keys are versioned keys ordered by user key ascending, then version descending (`vlt`, which is
@@ -294,6 +295,15 @@ theorem C17_vlt_iff (a b : VK) :
 example : HeightsOk [.set ⟨⟨[97], 1⟩, [1], false, 1⟩ 2, .delete ⟨[97], 1⟩, .set ⟨⟨[97], 2⟩, [], true, 2⟩ 1] := by
   simp [HeightsOk]
 
+/-- The order of the skiplist is the order of the *translated* `types.CompareKeys` (`GenTypes.compareKeys`, regenerated from
+`/repo/types/types.go` on every run): `CompareKeys(a, b) < 0` on `user@ts` keys exactly when `vlt a b`; and the translated
+`types.IsSameKey` compares the user keys. -/
+theorem C17_code_key_order (a b : VK) (h1 : a.ts < 2^64) (h2 : b.ts < 2^64) :
+    (GenTypes.compareKeys (fun x y => TypesTie.ordInt (cmpBytes x y)) TypesTie.pk parseTs (keyWithTs a.user a.ts) (keyWithTs b.user b.ts) < 0
+      ↔ vlt a b = true) ∧
+    GenTypes.isSameKey TypesTie.pk (keyWithTs a.user a.ts) (keyWithTs b.user b.ts) = decide (a.user = b.user) :=
+  ⟨TypesTie.compareKeys_neg_iff_vlt a b h1 h2, TypesTie.isSameKey_keyWithTs _ _ _ _⟩
+
 #print axioms C17_refines
 #print axioms C17_pointer_level_rep
 #print axioms C17_pointer_level_queries
@@ -302,4 +312,5 @@ example : HeightsOk [.set ⟨⟨[97], 1⟩, [1], false, 1⟩ 2, .delete ⟨[97],
 #print axioms C17_set_existing
 #print axioms C17_order_is_compareKeys
 #print axioms C17_vlt_iff
+#print axioms C17_code_key_order
 end Props
